@@ -477,4 +477,210 @@ theorem for_dead (H : Hyp T tpep len M fuel) (htl : T.length + len ≤ 184467440
       exact hd
 end Iter
 
+
+/-! ### the complete routine -/
+
+theorem finalSteps_err_iff (P : Params) (s : St) (he0 : s.err = none) :
+    (finalSteps P s).err ≠ none ↔
+      (if P.isOdd = 1 then ¬ (idxOK 1 P.vla = true ∧ (s.sp 0).isSome = true)
+       else ¬ (idxOK s.current P.vla = true ∧ (s.sp s.current.toNat).isSome = true)) := by
+  by_cases hodd : P.isOdd = 1
+  · simp only [hodd, if_true]
+    by_cases hidx : idxOK 1 P.vla = true
+    · cases hv : s.sp 0 with
+      | none => simp [finalSteps, he0, hodd, hidx, hv, upd, St.fail]
+      | some v => simp [finalSteps, he0, hodd, hidx, hv, upd, St.emit]
+    · simp [finalSteps, he0, hodd, hidx, St.fail]
+  · simp only [hodd, if_false]
+    by_cases hidx : idxOK s.current P.vla = true
+    · cases hv : s.sp s.current.toNat with
+      | none => simp [finalSteps, he0, hodd, hidx, hv, St.fail]
+      | some v => simp [finalSteps, he0, hodd, hidx, hv, St.emit]
+    · simp [finalSteps, he0, hodd, hidx, St.fail]
+
+theorem ev_vla_bad (len : Nat) : (ev (OSt.init len) 1 [0]).bad = true := by
+  simp [ev, OSt.init, OSt.fail]
+
+section Top
+variable (T : List (List Nat)) (tpep len : Nat) (oracle : Nat → Bool) (fuel : Nat) (pl : Int) (M : Nat)
+
+local macro "ST[" lg:term "," tmp:term "," eh:term "," xd:term "," od:term "," o:term "]" : term =>
+  `(({ log2_of_e := $lg, tmp := $tmp, e_half := $eh, strategy := 0, i := 0, j := 0, BLOCK := 0, current := 0, XDBLs := $xd, is_odd := $od, fault := none, obs := $o } : EvenSt OSt))
+
+
+/-- **converse**: when the hand model faults, the run of the translated skeleton ends dead -/
+theorem skel_dead (H : Hyp T tpep len M fuel) (htl : T.length + len ≤ 18446744073709551616) (hfu1 : 1 ≤ fuel)
+    (he : (evalEven T tpep len).err ≠ none) :
+    Dead (ec_eval_even_strategy obs T tpep oracle fuel len pl (EvenSt.init (OSt.init len))) := by
+  have h6 : (mkParams T tpep len).eHalf = len / 2 := rfl
+  have h7 : (mkParams T tpep len).isOdd = len % 2 := rfl
+  have h8 : (mkParams T tpep len).vla = 2 * bitlen (len / 2 % 256) := rfl
+  have hmag := H.hmag
+  have hb8 := bitlen_le8 (len / 2 % 256) (by omega)
+  by_cases hvla : (mkParams T tpep len).vla = 0
+  · -- zero-size VLA
+    unfold ec_eval_even_strategy
+    rw [step_live _ (EvenSt.init (OSt.init len)) rfl rfl]
+    dsimp only [EvenSt.init]
+    have e1 : ((len : Int) / 2) % W64 = ((len / 2 : Nat) : Int) := by rw [w64]; omega
+    rw [e1]
+    rw [step_live _ ST[0, 0, ((len / 2 : Nat) : Int), IArr.new 0, 0, OSt.init len] rfl rfl]
+    dsimp only
+    have e2 : ((len / 2 : Nat) : Int) % 256 = ((len / 2 % 256 : Nat) : Int) := by omega
+    rw [e2]
+    rw [step_live _ ST[0, ((len / 2 % 256 : Nat) : Int), ((len / 2 : Nat) : Int), IArr.new 0, 0, OSt.init len] rfl rfl]
+    dsimp only
+    rw [step_live _ ST[0 % 256, ((len / 2 % 256 : Nat) : Int), ((len / 2 : Nat) : Int), IArr.new 0, 0, OSt.init len] rfl rfl]
+    erw [loop0 T tpep len oracle fuel pl fuel (len / 2 % 256) 0 _ rfl rfl rfl rfl (by omega) (by have := H.hfuh; omega)]
+    dsimp only
+    rw [Nat.zero_add]
+    rw [step_live _ ST[((bitlen (len / 2 % 256) : Nat) : Int), 0, ((len / 2 : Nat) : Int), IArr.new 0, 0, OSt.init len] rfl rfl]
+    dsimp only
+    have e5 : ((bitlen (len / 2 % 256) : Nat) : Int) * 2 % 256 = (((mkParams T tpep len).vla : Nat) : Int) := by
+      rw [h8]; omega
+    rw [e5]
+    rw [hvla]
+    rw [step_live _ ST[((0 : Nat) : Int), 0, ((len / 2 : Nat) : Int), IArr.new 0, 0, OSt.init len] rfl rfl]
+    dsimp only [obs_ev, EvKind.vla]
+    generalize hK : EvenSt.mk _ _ _ _ _ _ _ _ _ _ _ _ = K
+    have hd : Dead K := by rw [← hK]; exact dead_of_bad _ (by simpa using ev_vla_bad len)
+    have hs : ∀ f, EvenSt.step obs f K = K := fun f => step_dead f K hd
+    simp only [hs]
+    exact hd
+  · have heh : len / 2 % 256 ≠ 0 := bitlen_pos _ (by omega)
+    unfold evalEven evalP at he
+    simp only [hvla, if_false] at he
+    unfold ec_eval_even_strategy
+    rw [step_live _ (EvenSt.init (OSt.init len)) rfl rfl]
+    dsimp only [EvenSt.init]
+    have e1 : ((len : Int) / 2) % W64 = ((len / 2 : Nat) : Int) := by rw [w64]; omega
+    rw [e1]
+    rw [step_live _ ST[0, 0, ((len / 2 : Nat) : Int), IArr.new 0, 0, OSt.init len] rfl rfl]
+    dsimp only
+    have e2 : ((len / 2 : Nat) : Int) % 256 = ((len / 2 % 256 : Nat) : Int) := by omega
+    rw [e2]
+    rw [step_live _ ST[0, ((len / 2 % 256 : Nat) : Int), ((len / 2 : Nat) : Int), IArr.new 0, 0, OSt.init len] rfl rfl]
+    dsimp only
+    rw [step_live _ ST[0 % 256, ((len / 2 % 256 : Nat) : Int), ((len / 2 : Nat) : Int), IArr.new 0, 0, OSt.init len] rfl rfl]
+    erw [loop0 T tpep len oracle fuel pl fuel (len / 2 % 256) 0 _ rfl rfl rfl rfl (by omega) (by have := H.hfuh; omega)]
+    dsimp only
+    rw [Nat.zero_add]
+    rw [step_live _ ST[((bitlen (len / 2 % 256) : Nat) : Int), 0, ((len / 2 : Nat) : Int), IArr.new 0, 0, OSt.init len] rfl rfl]
+    dsimp only
+    have e5 : ((bitlen (len / 2 % 256) : Nat) : Int) * 2 % 256 = (((mkParams T tpep len).vla : Nat) : Int) := by
+      rw [h8]; omega
+    have hv0 : (0 : Int) < (((mkParams T tpep len).vla : Nat) : Int) := by omega
+    rw [e5]
+    rw [step_live _ ST[(((mkParams T tpep len).vla : Nat) : Int), 0, ((len / 2 : Nat) : Int), IArr.new 0, 0, OSt.init len] rfl rfl]
+    dsimp only [obs_ev, EvKind.vla]
+    rw [ev_vla _ _ hv0]
+    rw [step_live _ ST[(((mkParams T tpep len).vla : Nat) : Int), 0, ((len / 2 : Nat) : Int), IArr.new 0, 0, obsV (((mkParams T tpep len).vla : Nat) : Int) len] rfl rfl]
+    dsimp only [obs_ev, EvKind.copyIn]
+    rw [ev_copyIn _ _ hv0]
+    rw [step_live _ ST[(((mkParams T tpep len).vla : Nat) : Int), 0, ((len / 2 : Nat) : Int), IArr.new 0, 0, obs0 (((mkParams T tpep len).vla : Nat) : Int) len] rfl rfl]
+    dsimp only
+    rw [step_live _ ST[(((mkParams T tpep len).vla : Nat) : Int), 0, ((len / 2 : Nat) : Int), IArr.new 0, 0, obs0 (((mkParams T tpep len).vla : Nat) : Int) len] rfl rfl]
+    dsimp only
+    rw [step_live _ ST[(((mkParams T tpep len).vla : Nat) : Int), 0, ((len / 2 : Nat) : Int), IArr.new 0, 0, obs0 (((mkParams T tpep len).vla : Nat) : Int) len] rfl rfl]
+    dsimp only
+    rw [step_live _ ST[(((mkParams T tpep len).vla : Nat) : Int), 0, ((len / 2 : Nat) : Int), IArr.new 0, 0, obs0 (((mkParams T tpep len).vla : Nat) : Int) len] rfl rfl]
+    dsimp only
+    rw [if_pos hv0]
+    rw [step_live _ ST[(((mkParams T tpep len).vla : Nat) : Int), 0, ((len / 2 : Nat) : Int), IArr.new (((mkParams T tpep len).vla : Nat) : Int), 0, obs0 (((mkParams T tpep len).vla : Nat) : Int) len] rfl rfl]
+    dsimp only
+    have e12 : (len : Int) % 2 = ((len % 2 : Nat) : Int) := by omega
+    rw [e12]
+    rw [step_live _ ST[(((mkParams T tpep len).vla : Nat) : Int), 0, ((len / 2 : Nat) : Int), IArr.new (((mkParams T tpep len).vla : Nat) : Int), ((len % 2 : Nat) : Int), obs0 (((mkParams T tpep len).vla : Nat) : Int) len] rfl rfl]
+    dsimp only
+    rw [step_live _ ST[(((mkParams T tpep len).vla : Nat) : Int), 0, ((len / 2 : Nat) : Int), IArr.new (((mkParams T tpep len).vla : Nat) : Int), ((len % 2 : Nat) : Int), obs0 (((mkParams T tpep len).vla : Nat) : Int) len] rfl rfl]
+    have R0 : Rel (mkParams T tpep len) M 0
+        ST[(((mkParams T tpep len).vla : Nat) : Int), 0, ((len / 2 : Nat) : Int), IArr.new (((mkParams T tpep len).vla : Nat) : Int), ((len % 2 : Nat) : Int), obs0 (((mkParams T tpep len).vla : Nat) : Int) len]
+        (initSt (mkParams T tpep len)) := by
+      constructor
+      · rfl
+      · rfl
+      · rfl
+      · rfl
+      · rfl
+      · rfl
+      · rfl
+      · rfl
+      · rfl
+      · rfl
+      · intro i; rfl
+      · rfl
+      · intro i
+        simp only [obs0, initSt]
+        have : ((i : Int) = 0) ↔ i = 0 := by omega
+        simp only [this]; rfl
+      · rfl
+      · intro i v h; simp [initSt] at h
+      · simp [initSt]
+      · simp [initSt]
+      · simp [initSt]
+    by_cases hfl : (forLoop (mkParams T tpep len) ((mkParams T tpep len).eHalf - 1) 0 (initSt (mkParams T tpep len))).err = none
+    · have R2 := for_sim T tpep len oracle fuel pl M H ((mkParams T tpep len).eHalf - 1) fuel 0 _ _ R0 (by omega)
+        (by have := H.hfuh; omega) hfl
+      generalize hk2 : whileF _ _ _ _ fuel _ = k2 at R2 ⊢
+      generalize forLoop (mkParams T tpep len) ((mkParams T tpep len).eHalf - 1) 0 (initSt (mkParams T tpep len)) = m2 at R2 he hfl ⊢
+      clear hk2 R0
+      have hkf := R2.kf
+      have hkb := R2.kb
+      have hc := (finalSteps_err_iff _ m2 R2.me).1 he
+      by_cases hodd : len % 2 = 0
+      · have hio : (mkParams T tpep len).isOdd = 0 := by rw [h7]; exact hodd
+        have hodk : k2.is_odd = 0 := by rw [R2.od, hio]; rfl
+        simp only [hio] at hc
+        have hbad6 : (ev k2.obs 6 [k2.current]).bad = true := by
+          apply ev_one_bad _ 6 (by simp)
+          intro h
+          apply hc
+          obtain ⟨h1, h2⟩ := h
+          simp only [OSt.inb, R2.os, R2.cu, Bool.and_eq_true, decide_eq_true_eq] at h1
+          have hcn : m2.current = ((m2.current.toNat : Nat) : Int) := by omega
+          refine ⟨by simp [idxOK]; omega, ?_⟩
+          rw [R2.cu, hcn, R2.og] at h2
+          exact h2
+        simp [Dead, EvenSt.step, EvenSt.live, obs, hkf, hkb, hodk, truthy, EvKind.isog4, hbad6]
+      · have hio : (mkParams T tpep len).isOdd = 1 := by rw [h7]; omega
+        have hodk : k2.is_odd = 1 := by rw [R2.od, hio]; rfl
+        simp only [hio, if_true] at hc
+        have hbadc : (ev k2.obs 2 [1, 0]).bad = true := by
+          apply ev_copy_bad
+          intro h
+          apply hc
+          obtain ⟨h1, _, h3⟩ := h
+          simp only [OSt.inb, R2.os, Bool.and_eq_true, decide_eq_true_eq] at h1
+          refine ⟨by simp [idxOK]; omega, ?_⟩
+          have := R2.og 0
+          simp only [Int.natCast_zero] at this
+          rw [this] at h3
+          exact h3
+        simp [Dead, EvenSt.step, EvenSt.live, obs, hkf, hkb, hodk, truthy, EvKind.copy, hbadc]
+    · have hd := for_dead T tpep len oracle fuel pl M H htl hfu1 ((mkParams T tpep len).eHalf - 1) fuel 0 _ _ R0 (by omega)
+        (by have := H.hfuh; omega) hfl
+      generalize hk2 : whileF _ _ _ _ fuel _ = k2 at hd ⊢
+      have hs : ∀ f, EvenSt.step obs f k2 = k2 := fun f => step_dead f k2 hd
+      simp only [hs]
+      exact hd
+end Top
+
+
+/-- **fault status of the translated text = fault status of the hand model** (under the side conditions `Hyp`) -/
+theorem skel_live_iff (T : List (List Nat)) (tpep len : Nat) (oracle : Nat → Bool) (fuel : Nat) (pl : Int) (M : Nat)
+    (H : Hyp T tpep len M fuel) (htl : T.length + len ≤ 18446744073709551616) (hfu1 : 1 ≤ fuel) :
+    let k := ec_eval_even_strategy obs T tpep oracle fuel len pl (EvenSt.init (OSt.init len))
+    (k.fault = none ∧ k.obs.bad = false) ↔ (evalEven T tpep len).err = none := by
+  intro k
+  constructor
+  · intro h
+    by_cases he : (evalEven T tpep len).err = none
+    · exact he
+    · exfalso
+      have hd := skel_dead T tpep len oracle fuel pl M H htl hfu1 he
+      exact ((live_iff k).2 h) hd
+  · intro he
+    have F := skel_refines T tpep len oracle fuel pl M H he
+    exact ⟨F.kf, F.kb⟩
+
 end SqiProofs.SkelEvenConv
